@@ -217,7 +217,7 @@ def cases(tier):
 
     def add(shape, nglyphs=6000, runs=None, **kw):
         c = {"kind": "gen", "shape": shape, "label": "gen:" + shape + kw.pop("suffix", ""), "nglyphs": nglyphs, "runs": runs or allmodes,
-             "budget": 150, "per_lookup": 60, "max_shape": 70}
+             "budget": 150, "per_lookup": 40 if tier == "quick" else 60, "max_shape": 45 if tier == "quick" else 70}
         c.update(kw)
         out.append(c)
 
@@ -230,8 +230,8 @@ def cases(tier):
     add("gsub-chain-contexts")
     add("gpos-pair-glyphs")
     levels = [0, 1, 5, 9] if tier == "quick" else list(range(10))
-    add("gpos-pair-classes", runs=[(m, l) for l in levels for m in ("F", "N", "T")][: 12 if tier == "quick" else 30], budget=240)
-    add("gpos-pair-classes", suffix=":sparse", sparse=3, k1=90, factor=0.55, runs=[("N", l) for l in range(10)], budget=240)
+    add("gpos-pair-classes", runs=[(m, l) for l in levels for m in ("F", "N", "T")][: 8 if tier == "quick" else 30], budget=240)
+    add("gpos-pair-classes", suffix=":sparse", sparse=3, k1=90, factor=0.55, runs=[("N", l) for l in ([0, 1, 3, 5, 7, 9] if tier == "quick" else range(10))], budget=240)
     add("gpos-mark-base")
     add("gpos-single", nglyphs=10000)
     add("gpos-many-lookups")
